@@ -155,7 +155,7 @@ pub fn run(ctx: &Ctx) -> (Acc, String, bool) {
     if !cfg!(debug_assertions) {
         return (acc, rule, ex);
     }
-    let depths: Vec<usize> = if ctx.quick() { vec![64, 999, 1001, 4000] } else { vec![64, 999, 1001, 4000, 20_000, 100_000] };
+    let depths: Vec<usize> = if ctx.quick() { vec![64, 999, 1001, 2500] } else { vec![64, 999, 1001, 2500, 4000, 20_000, 100_000] };
     let child_limit = std::time::Duration::from_secs(ctx.pick(8, 120));
     let exe = std::env::current_exe().expect("current_exe");
     let mut cases: Vec<(String, String, usize, String)> = vec![];
@@ -167,6 +167,12 @@ pub fn run(ctx: &Ctx) -> (Acc, String, bool) {
                         continue;
                     }
                     cases.push((store.to_string(), shape.to_string(), *depth, op.to_string()));
+                }
+            }
+            if ctx.quick() {
+                // the recursive conversions once more at a depth where an unguarded recursion leaves a 2 MiB stack
+                for op in ["cast-text", "cast-bytes", "cast-symbol", "cast-list"] {
+                    cases.push((store.to_string(), shape.to_string(), 4000, op.to_string()));
                 }
             }
         }
